@@ -321,6 +321,9 @@ func (t *Header) Decode(d *Decoder) error {
 	}
 
 	epochMarkPointerFlag, err := d.ReadPointerFlag()
+	if err != nil {
+		return err
+	}
 	epochMarkPointerIsNil := epochMarkPointerFlag == 0
 	if epochMarkPointerIsNil {
 		cLog(Yellow, "EpochMark is nil")
@@ -336,6 +339,9 @@ func (t *Header) Decode(d *Decoder) error {
 	}
 
 	ticketsMarkPointerFlag, err := d.ReadPointerFlag()
+	if err != nil {
+		return err
+	}
 	ticketsMarkPointerIsNil := ticketsMarkPointerFlag == 0
 	if ticketsMarkPointerIsNil {
 		cLog(Yellow, "TicketsMark is nil")
@@ -1141,13 +1147,13 @@ func (f *Fault) Decode(d *Decoder) error {
 	}
 
 	// read a byte for bool
-	vote, err := d.buf.ReadByte()
+	vote, err := d.ReadBool()
 	if err != nil {
 		return err
 	}
 	cLog(Yellow, "Vote: %v", vote)
 
-	f.Vote = vote == 1
+	f.Vote = vote
 
 	if err = f.Key.Decode(d); err != nil {
 		return err
@@ -1223,13 +1229,13 @@ func (j *Judgement) Decode(d *Decoder) error {
 	var err error
 
 	// read a byte for bool
-	vote, err := d.buf.ReadByte()
+	vote, err := d.ReadBool()
 	if err != nil {
 		return err
 	}
 	cLog(Yellow, "Vote: %v", vote)
 
-	j.Vote = vote == 1
+	j.Vote = vote
 
 	if err = j.Index.Decode(d); err != nil {
 		return err
@@ -1995,6 +2001,9 @@ func (t *TicketsOrKeys) Decode(d *Decoder) error {
 	// Otherwise, it means Tickets is not nil
 
 	firstByte, err := d.ReadPointerFlag()
+	if err != nil {
+		return err
+	}
 	isTickets := firstByte == 0
 	isKeys := firstByte == 1
 
@@ -3224,11 +3233,11 @@ func (b *BoundaryNode) Decode(d *Decoder) error {
 			return err
 		}
 	}
-	isLeafByte, err := d.buf.ReadByte()
+	isLeaf, err := d.ReadBool()
 	if err != nil {
 		return err
 	}
-	b.IsLeaf = (isLeafByte != 0)
+	b.IsLeaf = isLeaf
 	return nil
 }
 
